@@ -126,7 +126,7 @@ impl Prop for C09T {
             sc.n = IFACES[iface].ns[0];
             return sc;
         }
-        let m = Model::of(iface);
+        let m = simcore::spec::model(iface);
         let n_ops = rng.range(1, 24);
         let uo = UnitOpts { payloads: Payloads::Plain, allow_fail: false, allow_common: true };
         let mut msgs: Vec<Msg> = Vec::new();
